@@ -50,6 +50,9 @@ pub enum Seg {
 pub struct PathSpec {
     pub evenodd: bool,
     pub segs: Vec<Seg>,
+    /// reference only: flatten with this tolerance first (as DrawTarget::stroke does for curves)
+    #[serde(default, skip_serializing_if = "Option::is_none")]
+    pub flatten: Option<F>,
     /// twin only: replace the path by the outline stroke_to_path(dash_path(path)) of this style
     /// (the winding then is the outline's own)
     #[serde(default, skip_serializing_if = "Option::is_none")]
@@ -61,7 +64,7 @@ pub struct PathSpec {
 
 impl PathSpec {
     pub fn new(evenodd: bool, segs: Vec<Seg>) -> PathSpec {
-        PathSpec { evenodd, segs, stroke_first: None, xf: None }
+        PathSpec { evenodd, segs, flatten: None, stroke_first: None, xf: None }
     }
 }
 
@@ -100,11 +103,15 @@ pub struct SrcSpec {
     /// extra transform applied in front of the source's own transform
     /// (used by the canonicalised twin: CTM^-1)
     pub pre: Option<Mat>,
+    /// an additional user-space -> source-space transform composed in front of the transform
+    /// the constructor computes (gradients only: a source "built directly" with its own transform)
+    #[serde(default, skip_serializing_if = "Option::is_none")]
+    pub user_xf: Option<Mat>,
 }
 
 impl SrcSpec {
     pub fn solid(a: u8, r: u8, g: u8, b: u8) -> SrcSpec {
-        SrcSpec { kind: SrcKind::Solid { a, r, g, b }, pre: None }
+        SrcSpec { kind: SrcKind::Solid { a, r, g, b }, pre: None, user_xf: None }
     }
     pub fn is_solid(&self) -> bool {
         matches!(self.kind, SrcKind::Solid { .. } | SrcKind::SolidUnpremul { .. } | SrcKind::SolidColor { .. })
